@@ -598,7 +598,7 @@ result_t DateTimeDataType::writeSymbols(size_t offset, size_t length, istringstr
           return result;  // invalid time part
         }
         if ((i == (m_hasDate ? 2 : 0) && value > 24)
-        || (i > (m_hasDate ? 2 : 0) && (last == 24 && value > 0) )) {
+        || (i > (m_hasDate ? 2 : 0) && ((i == (m_hasDate ? 3 : 1) ? last : lastLast) == 24 && value > 0) )) {
           return RESULT_ERR_OUT_OF_RANGE;  // invalid time part
         }
         if (hasFlag(SPE)) {  // minutes since midnight
